@@ -854,6 +854,21 @@ class C09Distance(Monitor):
     def on_filter(self, flt, before, out, tree):
         name = type(flt).__name__
         if name in ("FarEnough", "NBC_FarEnough"):
+            o = getattr(flt, "norm_ord", 2)
+            if o != 2:
+                for parent, inds in before.items():
+                    sibs = [c for sid, (lvl, c, cname) in self.true_c.items() if lvl == parent.level + 1]
+                    if len(sibs) >= 2:
+                        for ind in inds:
+                            x = canon(ind.genome)
+                            d2 = [float(np.linalg.norm(x - c)) for c in sibs]
+                            do = [float(np.linalg.norm(x - c, ord=o)) for c in sibs]
+                            if int(np.argmin(d2)) != int(np.argmin(do)):
+                                self.cov("candidates_whose_nearest_sibling_depends_on_the_norm")
+                                thr_ = getattr(flt, "min_distance", None)
+                                if thr_ is not None and min(do) <= thr_ < do[int(np.argmin(d2))]:
+                                    # too close to a sibling that is not the Euclidean-nearest one, while the Euclidean-nearest one is far enough
+                                    self.cov("candidates_rejected_only_because_of_a_sibling_that_is_not_the_euclidean_nearest")
             nb = sum(len(v) for v in before.values())
             na = sum(len(c.individuals) for c in out.values())
             if na < nb:
